@@ -15,8 +15,8 @@ RULE = ("seeded documents (3-12 Sections, depth <= 4) with 1-3 linking Sections 
         "quantifier says (target no relative of the linker, no target is/contains/lies inside a "
         "linker), links absolute or relative, includes as file: URL#path of a second generated file; "
         "own children of other names (restoration profile) or of the same names with same/other "
-        "type; scripts of finalize / clean / repeated cycles / restart through XML / save-after-"
-        "clean; judged against an independent resolver model. distinct = distinct (document shape, "
+        "type, names with case variants, repositories; scripts of finalize / clean / repeated cycles / "
+        "restart through XML / save-after-clean / target gains children / target renamed and replaced; judged against an independent resolver model. distinct = distinct (document shape, "
         "link layout, script) hashes")
 COMPONENTS = dict(sessioncheck.COMPONENTS)
 COMPONENTS["real"] = COMPONENTS["real"] + ["odml.terminology (cache in the sandbox)",
